@@ -63,9 +63,10 @@ Section Lift.
   Qed.
   Lemma kk_handle_offer e a : kk (handle_offer e a).
   Proof.
-    intros X w Hg. unfold handle_offer. destruct (negb (is_watching e w)); [exact Hg|].
+    intros X w Hg. unfold handle_offer.
     destruct (from_offer_entry e) as [s|]; [|exact Hg].
-    destruct (e_ttl e =? 0); [apply kk_store_stop; exact Hg|apply kk_store_refresh; [exact Hg|reflexivity]].
+    destruct (e_ttl e =? 0); [apply kk_store_stop; exact Hg|].
+    destruct (negb (is_watching e w)); [exact Hg|apply kk_store_refresh; [exact Hg|reflexivity]].
   Qed.
   Lemma kk_discovery_start : kk discovery_start.
   Proof.
